@@ -4,7 +4,8 @@
 # then runs the named quick checks against it on /repo and stores it under /verif/seeded/<PROP>-m<N>/.
 export GOFLAGS=-mod=mod GOPROXY=off GOSUMDB=off GOTOOLCHAIN=local
 P="$1"; N="$2"; DDIR="$3"; shift 3
-WT=/tmp/wt-$P; M=$WT/_mutants
+WT=${WT_PREFIX:-/tmp/wt-}$P; M=$WT/_mutants
+ON=$((N+${OUT_OFFSET:-0}))
 cd $WT || exit 2
 git checkout -q -- . ; git clean -fdq -e _mutants
 DEMO=$DDIR/zz_m${N}_demo_test.go
@@ -20,17 +21,25 @@ cp $M/m${N}_demo_test.go $DEMO
 ( cd $DDIR && go test -count=1 -run . . >/tmp/demo_mut.log 2>&1 ); MUT=$?
 rm -f $DEMO
 git checkout -q -- . ; git clean -fdq -e _mutants
-echo "confirm $P m$N: build=$B1/$B2 suite_with_mutant=$SUITE demo_clean=$CLEAN demo_mutant=$MUT"
+echo "confirm $P m$ON: build=$B1/$B2 suite_with_mutant=$SUITE demo_clean=$CLEAN demo_mutant=$MUT"
 if [ $B1 -ne 0 ] || [ $B2 -ne 0 ] || [ $SUITE -ne 0 ] || [ $CLEAN -ne 0 ] || [ $MUT -eq 0 ]; then echo "NOT-CONFIRMED"; tail -5 /tmp/suite_mut.log /tmp/demo_clean.log /tmp/demo_mut.log | cut -c1-200; exit 1; fi
-OUT=/verif/seeded/$P-m$N; mkdir -p $OUT
+OUT=/verif/seeded/$P-m$ON; mkdir -p $OUT
 cp $M/m${N}.diff $OUT/patch.diff; cp $M/m${N}_demo_test.go $OUT/demo_test.go; cp $M/m${N}.md $OUT/notes.md
 DET=""
 for id in "$@"; do
+  if [ -n "${USE_WT:-}" ]; then
+    # run the check against the scratch worktree with the change applied (leaves /repo alone)
+    ( cd $WT && git apply $OUT/patch.diff )
+    o=$(cd /verif && VERIF_REPO=$WT VERIF_NOEVIDENCE=1 ./check $id quick 2>&1 | tr -d "\000"; exit ${PIPESTATUS[0]}); c=$?
+    ( cd $WT && git checkout -q -- . )
+    r="$id exit=$c $(echo "$o" | grep -m1 -A1 'VIOLATION' | tr '\n' ' ' | cut -c1-300)"
+  else
   r=$(/verif/tools/mutcheck.sh $OUT/patch.diff $id 2>&1 | head -1 | cut -c1-300)
+  fi
   echo "  $r"
   DET="$DET$id:$(echo "$r" | grep -o 'exit=[0-9]*') "
 done
-python3 - "$P" "$N" "$DDIR" "$DET" <<'PY'
+python3 - "$P" "$ON" "$DDIR" "$DET" <<'PY'
 import json,sys
 p,n,ddir,det=sys.argv[1:5]
 notes=open(f'/verif/seeded/{p}-m{n}/notes.md').read()
